@@ -7,6 +7,7 @@ import ZV.Driver.C08
 import ZV.Driver.C09
 import ZV.Driver.C10
 import ZV.Driver.C11
+import ZV.Driver.CK
 
 def dispatch (line : String) : String :=
   match line.trimAscii.toString.splitOn " " with
@@ -16,6 +17,7 @@ def dispatch (line : String) : String :=
   | "c08" :: ws => ZV.Driver.C08.handle ws
   | "c09" :: ws => ZV.Driver.C09.handle ws
   | "c10" :: ws => ZV.Driver.C10.handle ws
+  | "ck" :: ws => ZV.Driver.CK.handle ws
   | "c11" :: ws => ZV.Driver.C11.handle ws
   | _ => "bad-op"
 
